@@ -522,9 +522,8 @@ package types
 //@   loop 1 invariant ups: forall(i, 0, len(updates), updates[i] != nil && 0 < updates[i].VotingPower && updates[i].VotingPower <= MaxTotalVotingPower)
 //@   loop 1 invariant dels: forall(i, 0, len(removals), removals[i] != nil && removals[i].VotingPower == 0)
 //@   loop 1 invariant sorted: forall(i, 0, len(changes), forall(j, 0, len(changes), i < j ==> changes[i].Address <= changes[j].Address))
-//@   loop 1 invariant strict: forall(i, 0, rangeindex + 1, forall(j, 0, rangeindex + 1, i < j ==> changes[i].Address < changes[j].Address))
-//@   loop 1 invariant subU: forall(i, 0, len(updates), exists(k, 0, rangeindex + 1, updates[i] == changes[k])) && forall(i, 0, len(updates), forall(j, 0, len(updates), i < j ==> updates[i].Address < updates[j].Address))
-//@   loop 1 invariant subD: forall(i, 0, len(removals), exists(k, 0, rangeindex + 1, removals[i] == changes[k])) && forall(i, 0, len(removals), forall(j, 0, len(removals), i < j ==> removals[i].Address < removals[j].Address))
+//@   loop 1 invariant upU: forall(i, 0, len(updates), updates[i].Address <= prevAddr) && forall(i, 0, len(updates), forall(j, 0, len(updates), i < j ==> updates[i].Address < updates[j].Address))
+//@   loop 1 invariant upD: forall(i, 0, len(removals), removals[i].Address <= prevAddr) && forall(i, 0, len(removals), forall(j, 0, len(removals), i < j ==> removals[i].Address < removals[j].Address))
 
 //@ func numNewValidators
 //@   requires wf: forall(i, 0, len(updates), updates[i] != nil)
